@@ -751,6 +751,69 @@ def tab4(units, R):
     # helpers that consume a literal handed to them: compare <length parameter> bytes at the cursor with <text parameter>
     # and, behind the equal edge only, return non-zero having advanced the offset by the same parameter
     consumers = {}
+
+    def lin_of(h, e, pidx, depth=0):
+        """e as {param index: coefficient, 'c': constant} over the helper's parameters; locals with one definition are followed"""
+        v = const_val(e)
+        if v is not None:
+            return {'c': v}
+        e = strip_casts(e)
+        k = e.get('k')
+        if k == 'ref' and e.get('d') in pidx:
+            return {pidx[e['d']]: 1, 'c': 0}
+        if k == 'ref' and e.get('dk') == 'local' and depth < 4:
+            defs = [d['init'] for d in h.locals() if d['d'] == e['d'] and 'init' in d]
+            defs += [a['r'] for a in assignments(h) if strip_casts(a['l']).get('k') == 'ref' and strip_casts(a['l'])['d'] == e['d']]
+            if len(defs) == 1 and not any(a['op'] != '=' for a in assignments(h) if strip_casts(a['l']).get('d') == e['d']):
+                return lin_of(h, defs[0], pidx, depth + 1)
+            return None
+        if k == 'bin' and e['op'] in ('+', '-'):
+            l, r = lin_of(h, e['l'], pidx, depth), lin_of(h, e['r'], pidx, depth)
+            if l is None or r is None:
+                return None
+            out = dict(l)
+            for kk, vv in r.items():
+                out[kk] = out.get(kk, 0) + (vv if e['op'] == '+' else -vv)
+            return out
+        return None
+
+    def lin_at(l, call):
+        if l is None:
+            return None
+        tot = l.get('c', 0)
+        for kk, co in l.items():
+            if kk == 'c' or co == 0:
+                continue
+            if kk >= len(call['args']):
+                return None
+            v = const_val(call['args'][kk])
+            if v is None:
+                return None
+            tot += co * v
+        return tot
+
+    def required_before(xcfg, node_id):
+        """S of the nearest `X->offset + S <= X->length` (can_read) whose true edge every path to the node takes"""
+        def size_of(nn):
+            if nn.kind != 'branch':
+                return None
+            c = strip_casts(nn.expr)
+            if c.get('k') == 'bin' and c['op'] == '<=' and is_mem(c['r'], 'length'):
+                a = strip_casts(c['l'])
+                if a.get('k') == 'bin' and a['op'] == '+':
+                    for (x, y) in ((a['l'], a['r']), (a['r'], a['l'])):
+                        if is_mem(x, 'offset'):
+                            return y
+            return None
+        cands = [nn for nn in xcfg.nodes if size_of(nn) is not None]
+
+        def guards(g, target):
+            return guarded_by(xcfg, target, lambda nn, l, g=g: nn.id == g.id and l is not None and l[0] == 'T')
+        gs = [g for g in cands if g.id != node_id and guards(g, node_id)]
+        for g in gs:
+            if all(o is g or guards(o, g.id) for o in gs):
+                return size_of(g)
+        return None
     for h in u.function_list:
         if not h.static or h.name == fn.name:
             continue
@@ -763,7 +826,10 @@ def tab4(units, R):
             if p is None or p[2] != 0 or p[1] not in ('==', '!=') or p[0].get('k') != 'call' or callee_name(p[0]) not in ('strncmp', 'memcmp'):
                 continue
             args = [strip_casts(a) for a in p[0]['args']]
-            if len(args) != 3 or args[2].get('d') not in pidx:
+            if len(args) != 3:
+                continue
+            cmp_len = lin_of(h, p[0]['args'][2], pidx)
+            if cmp_len is None or not any(kk != 'c' and co for kk, co in cmp_len.items()):
                 continue
             tp = [a for a in args[:2] if a.get('k') == 'ref' and a.get('d') in pidx]
             if not tp:
@@ -772,14 +838,17 @@ def tab4(units, R):
             rets = [r for r in hcfg.returns() if r.expr is not None and const_val(r.expr) != 0]
             good = bool(rets) and all(guarded_by(hcfg, r.id, lambda nn, l, b=b, eq_pol=eq_pol: nn.id == b.id and l is not None and l[0] == eq_pol)
                                       for r in rets)
-            adv_nodes = set()
+            adv_nodes = {}
             for m in hcfg.nodes:
                 if m.kind == 'stmt' and strip_casts(m.expr).get('k') == 'bin' and strip_casts(m.expr)['op'] == '+=' and \
-                        is_mem(strip_casts(m.expr)['l'], 'offset') and strip_casts(strip_casts(m.expr)['r']).get('d') == args[2]['d']:
-                    adv_nodes.add(m.id)
-            advanced = bool(adv_nodes) and all(r.id not in (hcfg.reachable(hcfg.entry.id, stop=adv_nodes) | {hcfg.entry.id}) for r in rets)
-            if good and advanced:
-                consumers[h.name] = (pidx[tp[0]['d']], pidx[args[2]['d']])
+                        is_mem(strip_casts(m.expr)['l'], 'offset'):
+                    adv_nodes[m.id] = lin_of(h, strip_casts(m.expr)['r'], pidx)
+            advanced = bool(adv_nodes) and all(r.id not in (hcfg.reachable(hcfg.entry.id, stop=set(adv_nodes)) | {hcfg.entry.id}) for r in rets)
+            advs = list(adv_nodes.values())
+            if good and advanced and len(advs) == 1 and advs[0] is not None:
+                rq = required_before(hcfg, b.id)
+                consumers[h.name] = {'text': pidx[tp[0]['d']], 'cmp': cmp_len, 'adv': advs[0],
+                                     'req': lin_of(h, rq, pidx) if rq is not None else None, 'has_req': rq is not None}
     for b in cfg.nodes:
         if b.kind != 'branch':
             continue
@@ -795,9 +864,10 @@ def tab4(units, R):
                 hc = strip_casts(pz[0])
                 pol = 'T' if pz[1] == '!=' else 'F'
         if hc is not None:
-            ti, li = consumers[callee_name(hc)]
+            cs = consumers[callee_name(hc)]
+            ti = cs['text']
             lit = strip_casts(hc['args'][ti]) if ti < len(hc['args']) else {}
-            nn = const_val(hc['args'][li]) if li < len(hc['args']) else None
+            nn = lin_at(cs['cmp'], hc)
             if lit.get('k') != 'str' or nn is None:
                 continue
             text = bytes(lit['bytes']).decode('latin1')
@@ -810,7 +880,7 @@ def tab4(units, R):
                 mn = cfg.nodes[m]
                 if mn.kind == 'stmt' and mn.expr.get('k') == 'bin' and mn.expr['op'] == '=' and is_mem(mn.expr['l'], 'type') and kind is None:
                     kind = const_val(mn.expr['r'])
-            found[text] = (nn, nn, kind, b)
+            found[text] = (nn, lin_at(cs['adv'], hc), kind, b, lin_at(cs['req'], hc) if cs['has_req'] else 'none')
             continue
         p = cmp_parts(b.expr)
         if p is None or p[1] != '==' or p[2] != 0 or p[0].get('k') != 'call' or callee_name(p[0]) not in ('strncmp', 'memcmp'):
@@ -834,16 +904,24 @@ def tab4(units, R):
                     adv = const_val(mn.expr['r'])
                 if mn.expr['op'] == '=' and is_mem(mn.expr['l'], 'type') and kind is None:
                     kind = const_val(mn.expr['r'])
-        found[text] = (nn, adv, kind, b)
+        rq = required_before(cfg, b.id)
+        found[text] = (nn, adv, kind, b, const_val(rq) if rq is not None else 'none')
     for text, bit in LITERALS.items():
         if text not in found:
             R.ob('TAB4', fn, None, 'literal %s is recognised' % text, False, 'no comparison with "%s"' % text, key='lit:' + text)
             continue
-        nn, adv, kind, b = found[text]
+        nn, adv, kind, b, req = found[text]
         ok = nn == len(text) and adv == len(text) and kind == bit
         R.ob('TAB4', fn, b.expr, 'literal "%s": compared length %s, advance %s, kind %s' % (text, nn, adv, kind), ok,
              'all equal to strlen = %d and kind bit %d' % (len(text), bit) if ok else
              'expected compare length = advance = %d and kind %d' % (len(text), bit), key='lit:' + text)
+        if req != 'none':
+            # the bytes demanded before comparing: fewer is BND1's business, more refuses the literal at the very end of the input
+            okr = req is not None and req <= len(text)
+            R.ob('TAB4', fn, b.expr, 'literal "%s" needs no more readable bytes than it has' % text, okr,
+                 '%s byte(s) required for %d' % (req, len(text)) if okr else
+                 '%s readable byte(s) are demanded for the %d of the literal: it is refused as the last token of an exact-length buffer' % (req, len(text)),
+                 key='lit-need:' + text)
     extra = set(found) - set(LITERALS)
     R.ob('TAB4', fn, None, 'no literal outside null/false/true is accepted', not extra, str(sorted(extra)), key='lit-extra')
     # BOM
